@@ -41,7 +41,7 @@ func init() {
 		Technique: "exhaustive single-position substitution of hostile markers into every string leaf of a maximal configuration tree (file start-up path and real dashboard handlers) and into chain data, each variant executed through the real pipeline against the fake Postgres; oracle = marker search over every SQL text received",
 		Rule: "maximal configuration (3 sources, 3 integrations: log with user unique/index/notification, log with nested tuple components carrying column/filter/filter_ref, trace on a shared table); every string leaf (incl. strings in arrays) x 9 markers (' \" ; ) ( -- $$ \\ .) as the whole value, and with the metacharacter as FIRST character, as LAST character and alone on identifier-like leaves [thorough: on all leaves, plus suffix/prefix of the benign value]; every substitution inside an integration also with that integration enabled:false; dashboard documents that carry the member of an identifier-like leaf TWICE (canonical key and a Capitalised / UPPER case variant, hostile value in either, either order: 8 variants) followed by the reload of the stored row (Restart -> config.Integrations -> tasks); unique/index entries additionally as \"<column> <marker>\" and \"<column> desc <marker>\" (only ASC/DESC may follow the single space); " +
 			"FILE: decode -> ValidateFix -> Schema+Migrate -> loadTasks -> 5 rounds of one Converge per task with a reorg of block 2 -> PruneTask; DASHBOARD: every string leaf of each integration as submitted to web.Handler.SaveIntegration (others pre-stored) and every form value of SaveSource -> Manager.Restart -> runner threads to stop=3 with the same reorg; " +
-			"CHAIN: 11 chain-data positions x 9 markers on the benign configuration. A case is non-trivial when the variant was rejected by validation or accepted and executed; distinct = distinct (mode, position, marker, form).",
+			"CHAIN: 11 chain-data positions x (9 markers + 3 injection strings such as `x'); delete …; --`) on the benign configuration, whose notifications cover byte, numeric and string-valued columns (ABI string input, trace call type); a marker in the TEXT of any statement sent is the violation, whether or not the fake can execute the statement. A case is non-trivial when the variant was rejected by validation or accepted and executed; distinct = distinct (mode, position, marker, form).",
 		Assumptions: []string{
 			"fake Postgres (h/simpg) records every simple-Query and Parse text; values travelling as Bind parameters or COPY data are not SQL text",
 			"a space is not a hostile character (documented \"col DESC\" index syntax); '.' is (schema qualification)",
@@ -145,7 +145,10 @@ func c15Jobs(thorough bool) ([]c15Case, error) {
 		}
 	}
 	for _, pos := range c15ChainPositions {
-		for m := range c15Markers {
+		for m := 0; m < len(c15Markers)+len(c15ChainExtra); m++ {
+			if m >= len(c15Markers) && !(pos == "data.memo" || pos == "data.extra" || pos == "tx.input" || pos == "trace.call_type") {
+				continue // the long strings do not fit into a 20-byte address
+			}
 			jobs = append(jobs, c15Case{Mode: "chain", Field: pos, Marker: m})
 		}
 	}
@@ -209,7 +212,10 @@ func disableAt(tree any, path []string) {
 }
 
 func c15ExecOne(k c15Case, probe bool) (res c15Res, pos string, variant string) {
-	needles := c15NeedlesFor(k.Marker, k.Form)
+	var needles []string
+	if k.Mode != "chain" {
+		needles = c15NeedlesFor(k.Marker, k.Form)
+	}
 	dis := ""
 	if k.Disabled {
 		dis = "disabled:"
@@ -324,9 +330,9 @@ func c15ExecOne(k c15Case, probe bool) (res c15Res, pos string, variant string) 
 		return c15DashExec(dashReq{Kind: "source", Form: form, SrcRef: ref, Probe: probe}, benignChains(), needles), "saveSource." + k.Field,
 			fmt.Sprintf("POST /save-source with %s = %q", k.Field, form[k.Field])
 	case "chain":
-		h := &chainHostile{Pos: k.Field, Marker: c15Markers[k.Marker]}
-		return c15FileExec(toJSON(c15Base()), c15BuildChains(h), []string{c15Markers[k.Marker]}, false), k.Field,
-			fmt.Sprintf("benign configuration, chain data %s carries %q", k.Field, c15Markers[k.Marker])
+		h := &chainHostile{Pos: k.Field, Marker: c15ChainString(k.Marker)}
+		return c15FileExec(toJSON(c15Base()), c15BuildChains(h), []string{c15ChainString(k.Marker)}, false), k.Field,
+			fmt.Sprintf("benign configuration (notifications on byte, numeric and string columns), chain data %s carries %q", k.Field, c15ChainString(k.Marker))
 	}
 	return c15Res{harness: "unknown mode " + k.Mode}, "", ""
 }
@@ -382,7 +388,7 @@ func c15Report(c *fw.Ctx, k c15Case, r c15Res, pos, variant string) {
 		c.Sample(map[string]any{"case": k, "outcome": r.outcome, "rows": r.rows, "cursors": r.cursors, "sql_texts": r.sqlCount})
 		return
 	}
-	if r.outcome == "LEAK" && c15HyphenOnly(k.Marker) {
+	if r.outcome == "LEAK" && c15HyphenOnly(k.Marker) && k.Mode != "chain" {
 		// conforms to the stated restriction (hyphen allowed): recorded, not judged
 		r.outcome = "spliced:hyphens-only-value"
 	}
